@@ -13,18 +13,31 @@ def run(ctx, model_ok):
     st, inv_fail = forest_family.run_stream(ctx, ctx.scale(150, 4000) * budget, ctx.scale(18, 24), want_model=ctx.driver_ok, p_copy=0.25)
     ctx.failing += inv_fail
     lst = forest_family.run_label_stream(ctx, ctx.scale(1500, 40000) * budget, ctx.scale(150, 2000), want_model=ctx.driver_ok)
+    # tie of the attributed model (Model/ForestAttr.lean: containers as heap cells, paths, style, copy(**kwargs), later mutations)
+    ast, afail = forest_family.run_attr_stream(ctx, ctx.scale(120, 3000) * budget, ctx.scale(16, 22), want_model=ctx.driver_ok)
+    ctx.failing += afail
     forest_samples = st.pop("samples")
     label_samples = lst.pop("samples")
-    ctx.cov["correspondence"] = {"forest": st, "label": lst}
-    ctx.cov["corr_samples"] = {"forest": forest_samples, "label": label_samples}
+    attr_samples = ast.pop("samples")
+    ctx.cov["correspondence"] = {"forest": st, "label": lst, "forestattr": ast}
+    ctx.cov["corr_samples"] = {"forest": forest_samples, "label": label_samples, "forestattr": attr_samples}
     ctx.assumptions += ["the objects of a copied tree are numbered in pre-order of the copy's own _children lists (harness convention; "
                         "the model numbers the clones in pre-order of the original's children lists) — equality of all dumps shows the two orders agree",
+                        "forestattr stream: containers are identified on the real side by id() of the ultimate base array / the Rotation / the style object (all kept alive), numbered by first "
+                        "occurrence over the history on both sides; a style object that a REJECTED add/remove creates as a side effect (repr() in the message evaluates obj.style) is shown as a style read "
+                        "following the operation (the two commute: they write to different parts of the state)",
+                        "values are integer-valued (positions in Z^3, octahedral rotations, integer excitations/dimensions); validity of values (positive dimensions, ...) is C17's subject, the model "
+                        "does not validate; `_style_kwargs` and the children lists are represented by value (record field / forest), not as heap cells",
                         "labels outside the generated alphabet (Unicode decimal digits, a trailing newline, which Python's `\\d+$` treats specially) are not modelled"]
     fails, ost = oracle.sweep(ctx, ctx.scale(64, 3000) * budget)
     ctx.failing += fails
     ctx.cov["oracle"] = ost
     ctx.cov["evaluations"] = ost["c18_copies"]
     ctx.cov["distinct_nontrivial"] = ost["c18_copies"]
+    ctx.cov["rule_forestattr"] = ("forestattr stream: objects of 6 classes constructed from integer specs (paths of length 1-3, style keyword arguments pending for half of them); per history 16-22 operations: "
+                                  "tree operations, move/rotate (scalar and vector input, start, anchors) and position= on leaves and populated collections, attribute / scalar / style writes, copy(**kwargs) "
+                                  "with position / array / scalar / style_label / style property overrides in random keyword order, of leaves and (nested, owned) collections with realised, pending or absent styles; "
+                                  "later operations on both sides; after every operation all values, tree links, *_all views and container identities of all objects are compared; op distribution in correspondence.forestattr")
     ctx.cov["rule"] = ("forest stream: seeded histories over 3-8 objects mixing add/remove/parent=/children=/typed setters/`+` with copy() of leaves, flat and nested, owned and free collections, "
                        "later operations addressing the clones (incl. copies of copies), every dump compared with Forest.stepC; label stream: add_iteration_suffix and obj.copy().style.label on generated names "
                        "(letters/digits/underscores, digit runs of width 1-4 with 9/99/999/9999 roll-over, all-digit and empty names, unlabelled originals); oracle: "
@@ -32,12 +45,13 @@ def run(ctx, model_ok):
                        "4 label shapes; each copy followed by mutation of both sides; every case has fresh random geometry/paths")
     ctx.cov["traces_validated_against_impl"] = ost["c18_copies"]
     ctx.cov["samples"] = [ost]
-    ctx.cov["not_shown"] = ["attribute equality, same field and absence of shared mutable state in the CPython heap: interpreter-level oracle (reachable-graph walk, np.shares_memory, mutate-and-diff)",
-                            "the Forest model has no attributes at all: 'same class' is the only attribute-level fact proved (copy_subtree_iso: kind); geometry, excitation, path, pixels, "
-                            "style VALUES of the copy, keyword overrides (copy(position=...), style_label=...) acting on the copy only, and lazily un-initialised styles other than the label rule "
-                            "(copy_label_spec) are oracle only",
-                            "'any later change to either is invisible to the other' is proved only in the form 'no parent/children/view link crosses between old and new ids' "
-                            "(copy_shares_no_node) plus C11-preservation for later tree operations; later path operations / attribute writes are outside the model"]
+    ctx.cov["not_shown"] = ["same field (C06 gives: the field is a function of the attribute values that copy_attrs_equal shows equal); whether CPython objects outside the seven modelled "
+                            "containers share state (class-level mutables, _magnetization, mesh caches, nested style sub-objects, custom 3d traces): interpreter-level oracle "
+                            "(reachable-graph walk, np.shares_memory, mutate-and-diff) and the per-operation overlap test of the forestattr stream",
+                            "the copied object's own reads under keyword overrides as a closed formula (last keyword wins, position= moves the copied children by the setter's rule): the model "
+                            "function copyKw is tied exactly by the forestattr stream; proved: overrides write to the copy (and, for position=, the paths of its clones) only",
+                            "orientation= / parent= / children= as copy keywords (= the corresponding setter applied to the copy: C09-C11 operations), rotate_from_* forms, setters raising part-way",
+                            "`_style_kwargs` dictionaries and `_children` lists as heap cells (represented by value / by the forest; link disjointness is copy_shares_no_node)"]
 
 
 def replay(ctx, payload):
